@@ -175,3 +175,15 @@ claim("C05", E1,
       "jaxpr -> SMT; per-leaf equality obligations (mostly syntactic after scan/jit inlining) + gradient-step equation",
       "DESIGN.md §3 C05, §2 F-UPD")
 NOT_APPLICABLE.pop("C05", None)
+
+claim("C16", E1 + " + " + E2,
+      "CMA-ES: set_evaluation_feedback symbolically executed over histories of 5 evaluations with symbolic (possibly tied) fitness: "
+      "reported best fitness/parameters are those of a best evaluated candidate; update_search_distribution (n=2, population 4, "
+      "default and active) traced to a jaxpr: new mean = weight-averaged best-mu candidates for every fitness order (24 cases shown "
+      "exhaustive), variance growth <= exp(0.6)^2, covariance symmetric, default variant keeps variances positive; flat_params/"
+      "set_params round trip is the identity on every leaf for 5 architectures; cem_update uses exactly the n_elite best (all "
+      "orders incl. ties) with a convex mean/variance update. Recombination weights are closed constants (exact evaluation).",
+      REAL + " Non-finite fitness and active-CMA-ES variance positivity are outside the claim; int/min shimmed for tracing.",
+      "jaxpr -> SMT with rank/order case splits shown exhaustive; path-forking symbolic execution for the incumbent bookkeeping",
+      "DESIGN.md §3 C16")
+NOT_APPLICABLE.pop("C16", None)
